@@ -3,7 +3,7 @@
 From Coq Require Import List NArith Bool Permutation.
 From SV Require Import Fmt.VpkDir Fmt.VpkDirProofs Fmt.VpkName Fmt.VpkNameSplit Fmt.VpkNameProofs SM.Vpk SM.VpkProofs.
 From SV Require Import Fmt.VpkArchName Fmt.VpkArchNameProofs SM.VpkRefine Fmt.VpkDirV2.
-From SV Require Import Fmt.VpkNameJoin Fmt.VpkNameJoinProofs.
+From SV Require Import Fmt.VpkNameJoin Fmt.VpkNameJoinProofs SM.VpkPlaceTable SM.VpkPlaceTableProofs Fmt.VpkDirProg Fmt.VpkDirProgProofs Fmt.VpkDirRead Fmt.VpkDirReadProofs SM.VpkProperty.
 From SV Require Import Fmt.VpkNullStr Fmt.VpkNullStrProofs SM.VpkNested SM.VpkNestedProofs SM.VpkApi SM.VpkApiProofs SM.VpkNestedMap SM.VpkNestedMapProofs SM.VpkNestedSim SM.VpkNestedWf SM.VpkPlace SM.VpkPlaceProofs.
 Import ListNotations.
 Open Scope N_scope.
@@ -507,3 +507,124 @@ Theorem c13_key_listable_examples :
   key_listable posix_normpath ([116; 120; 116], [97], [98]) /\ key_listable posix_normpath ([103], [99; 102; 103], [])
   /\ key_listable posix_normpath ([], [], []).
 Proof. exact key_listable_examples. Qed.
+
+(** ---- the decision tables have a meaning of their own (SM/VpkPlaceTable.v) ---- *)
+
+(** FileInfo.write run *from the placement table* ([write_info_t]: pick the row of the situation, cut where it says, put the rest where it
+    says, store the index and offset it says) is [write_info] of the state machine, for every table accepted by [place_table_ok] and
+    every configuration, state, entry, data and index. *)
+Theorem c13_write_table_is_write_info : forall pt, place_table_ok pt = true -> forall crc cf st i d ix,
+  write_info_t pt crc cf st i d ix = Some (write_info crc cf st i d ix).
+Proof. exact write_info_t_is_write_info. Qed.
+
+(** FileInfo.read / verify run from the read table are [read_info] / [verify_info]. *)
+Theorem c13_read_table_is_read_info : forall rt, read_table_ok rt = true -> forall crc st i,
+  read_info_t rt st i = Some (read_info st i) /\ verify_info_t rt crc st i = Some (verify_info crc st i).
+Proof. exact read_info_t_is_read_info. Qed.
+
+(** ---- write_dirfile / load_dirfile as programs read from the source (Fmt/VpkDirProg.v, Fmt/VpkDirRead.v; Gen/VpkDirProg_gen.v) ---- *)
+
+(** The statements of write_dirfile inside its with-block, compiled to a program and run on a file buffer with a cursor: every program
+    accepted by [wprog_ok] leaves exactly [enc_file] in the file (or raises struct.error exactly when [enc_file] is [None]) — header, mark,
+    loops extension > folder > file over sorted dicts skipping empty ones, string / entry / preload, one NUL after each level, tree
+    length measured before footer_data is written and patched in at offset 8. *)
+Theorem c13_write_dirfile_program_is_encoder : forall p, wprog_ok p = true -> forall c t footer, wexec c footer p t = enc_file c t footer.
+Proof. exact wprog_ok_is_enc_file. Qed.
+
+(** The statements of load_dirfile after the file is opened: every program accepted by [rprog_ok] returns what [dec_file_v] returns on
+    every input (well-formed or not; versions 1 and 2). *)
+Theorem c13_load_dirfile_program_is_decoder : forall p, rprog_ok p = true -> forall c bs, rexec c p bs = dec_file_v c bs.
+Proof. exact rprog_ok_is_dec_file_v. Qed.
+
+(** The translated reader reads back what the translated writer wrote. *)
+Theorem c13_dirfile_programs_roundtrip : forall wp rp, wprog_ok wp = true -> rprog_ok rp = true -> forall c, dcfg_ok c = true ->
+  forall t footer b, wf_tree c t -> wexec c footer wp t = Some b -> rexec c rp b = Some (1, nmap (flat_tree t), footer).
+Proof. exact programs_roundtrip. Qed.
+
+(** Wrong programs: no terminator after the folder level / preload before the entry (the file does not decode); tree length taken after
+    footer_data (wrong header; the library's lenient reader still loads it). *)
+Theorem c13_write_dirfile_programs_computed :
+  wprog_ok wprog_pinned = true
+  /\ match wexec ex_c [5; 6] wprog_pinned ex_t with Some b => dec_file ex_c b | None => None end = Some (nmap (flat_tree ex_t), [5; 6])
+  /\ wprog_ok wprog_no_dir_term = false
+  /\ match wexec ex_c [5; 6] wprog_no_dir_term ex_t with Some b => dec_file ex_c b | None => None end <> Some (nmap (flat_tree ex_t), [5; 6])
+  /\ wprog_ok wprog_len_after_footer = false
+  /\ wexec ex_c [5; 6] wprog_len_after_footer ex_t <> enc_file ex_c ex_t [5; 6]
+  /\ wprog_ok wprog_preload_first = false
+  /\ match wexec ex_c [5; 6] wprog_preload_first ex_t with Some b => dec_file ex_c b | None => None end <> Some (nmap (flat_tree ex_t), [5; 6]).
+Proof. exact wprogs_computed. Qed.
+
+(** Wrong readers: version-2 fields not skipped, header_len marked before them, the sentinel rewrite of the archive index forgotten. *)
+Theorem c13_load_dirfile_programs_computed :
+  rprog_ok rprog_pinned = true
+  /\ rexec ex_c rprog_pinned ex_dirfile = Some (1, nmap (flat_tree ex_t), [5; 6])
+  /\ rexec ex_c rprog_pinned ex_v2 = Some (2, nmap (flat_tree ex_t), [5; 6])
+  /\ rprog_ok rprog_no_v2_skip = false /\ rexec ex_c rprog_no_v2_skip ex_v2 <> Some (2, nmap (flat_tree ex_t), [5; 6])
+  /\ rprog_ok rprog_mark_before_v2 = false
+  /\ rprog_ok rprog_no_idx_sentinel = false
+  /\ rexec ex_c rprog_no_idx_sentinel ex_dirfile <> Some (1, nmap (flat_tree ex_t), [5; 6])
+  /\ rprog_ok rprog_no_early_exit = false
+  /\ rexec ex_c rprog_no_early_exit ex_dirfile = Some (1, nmap (flat_tree ex_t), [5; 6]).
+Proof. exact rprogs_computed. Qed.
+
+(** ---- the whole property as one statement (SM/VpkProperty.v) ---- *)
+
+(** [c13_hyps] collects, as one boolean, everything assumed about today's source: the objects the translators read from vpk.py (truth
+    table of __exit__, format constants and validations, placement and read tables, get-or-create steps of new_file, clean-up of
+    __delitem__, NUL-terminated string codec, programs of write_dirfile and load_dirfile, split statement, description of
+    _get_file_parts, table of _join_file_parts, archive naming sites) each pass their obligation.  Under it, for every checksum function
+    and every os.path.normpath: (1) any history of adding, overwriting, deleting, saving, reopening, with-blocks and load_dirfile(),
+    whose data values do not collide under the checksum and whose fields fit 32 bits ([xrun]/[run] not [None]), followed by leaving a
+    with-block (or write_dirfile) and reopening in 'r'/'a': every call returned what the specification map says, the reopened archive
+    lists exactly the files that should exist, and each file read as the read table says gives the bytes last written and verifies;
+    (2) the write of the machine is the write the placement table describes, for every placement; (3) write_dirfile / reopen of the
+    machine are the translated programs and the reader inverts the writer; (4) tree strings of any length go through the translated
+    codec; (5) the nested dicts hold exactly the machine's table; (6) the three name forms agree and a listed name resolves to its
+    entry (carve-out: last component ending in '.'); (7) numbered archives are found again; (8) read-only archives reject every mutation. *)
+Theorem c13_property : forall et cf pt rt g1 g2 prog nk wp rp sk gp jt nc,
+  c13_hyps et cf pt rt g1 g2 prog nk wp rp sk gp jt nc = true -> forall (crc : bytes -> N) (normpath : bytes -> bytes),
+  (forall xs m st codes, m <> MW -> collision_free crc (xplain xs) ->
+     xrun et crc cf init (xs ++ [XExit true; XOp (OReopen m)]) = Some (st, codes) ->
+     let '(s0, c0) := sxrun cf sinit xs in
+     writable (smd s0) = true ->
+     codes = c0 ++ [rOk; rOk] /\ md st = m /\ Permutation (map fst (tbl st)) (map fst (cur s0)) /\
+     forall k, match alookup k (tbl st), alookup k (cur s0) with
+               | Some i, Some d => read_info_t rt st i = Some d /\ verify_info_t rt crc st i = Some true
+               | None, None => True
+               | _, _ => False
+               end)
+  /\ (forall ops m st codes, m <> MW -> collision_free crc ops ->
+     run crc cf init (ops ++ [OSave; OReopen m]) = Some (st, codes) ->
+     let '(s0, c0) := srun cf sinit ops in
+     writable (smd s0) = true ->
+     codes = c0 ++ [rOk; rOk] /\ md st = m /\ Permutation (map fst (tbl st)) (map fst (cur s0)) /\
+     forall k, match alookup k (tbl st), alookup k (cur s0) with
+               | Some i, Some d => read_info_t rt st i = Some d /\ verify_info_t rt crc st i = Some true
+               | None, None => True
+               | _, _ => False
+               end)
+  /\ (forall st i d ix, write_info_t pt crc cf st i d ix = Some (write_info crc cf st i d ix))
+  /\ (forall t footer, wexec (v_dc cf) footer wp t = enc_file (v_dc cf) t footer)
+  /\ (forall bs, rexec (v_dc cf) rp bs = dec_file_v (v_dc cf) bs)
+  /\ (forall t footer b, wf_tree (v_dc cf) t -> wexec (v_dc cf) footer wp t = Some b -> rexec (v_dc cf) rp b = Some (1, nmap (flat_tree t), footer))
+  /\ (forall s, write_cstr_k nk s = write_cstr s) /\ (forall bs, next_str_k nk bs = next_str bs)
+  /\ (forall s rest, str_ok s = true -> next_str_k nk (write_cstr_k nk s ++ rest) = Some (Some s, rest))
+  /\ (forall ops, exists t, nt_run g1 g2 prog [] ops = Some t
+        /\ Permutation (map fst (flat_tree t)) (map fst (tb_run [] ops)) /\ forall k, alookup k (flat_tree t) = alookup k (tb_run [] ops))
+  /\ (forall s, let '(h, t) := split_path s in let '(n, e) := split_ext t [] in
+        file_parts_g normpath sk gp (NPair h t) = file_parts_g normpath sk gp (NStr s)
+        /\ ((e = [] -> rsplit1 46 n = None) -> file_parts_g normpath sk gp (NTriple h n e) = file_parts_g normpath sk gp (NStr s)))
+  /\ (forall k, key_listable normpath k -> exists s, join_k jt k = Some s /\ file_parts_g normpath sk gp (NStr s) = k)
+  /\ (forall f p i, dir_prefix_of nc f = Some p ->
+        site_name nc f (n_writer nc) i = Some (arch_filename nc p (Some i))
+        /\ Forall (fun r => site_name nc f r i = Some (arch_filename nc p (Some i))) (n_readers nc)
+        /\ arch_filename nc p None = f)
+  /\ (forall st o, md st = MR -> mutating o = true -> exists c, step crc cf st o = Some (st, c) /\ (c = rReadOnly \/ c = rMissing)).
+Proof. exact c13_property_composed. Qed.
+
+(** Non-vacuity: the objects of vpk.py as pinned satisfy [c13_hyps] (the check proves the same for the objects generated on every run:
+    instance obligation c13_property_hypotheses_hold_for_todays_source). *)
+Theorem c13_property_hypotheses_satisfiable :
+  c13_hyps exit_table_pinned ex_cfg table_pinned rtable_pinned goc_pinned goc_pinned del_prog_pinned ncodec_pinned wprog_pinned rprog_pinned
+           (SplitLast 46) gparts_pinned join_table_pinned (ex_ncfg (n_writer (ex_ncfg reader_rstrip))) = true.
+Proof. exact c13_hyps_pinned. Qed.
